@@ -31,6 +31,10 @@ import (
 // instead of using the MSAT array, in the same way that any other stream works.
 func (r *ComDoc) readShortSAT() error {
 	count := r.SectorSize / 4
+	// each sector of the SSAT occupies an entry in the SAT
+	if int64(r.Header.SSATSectorCount) > int64(len(r.SAT)) {
+		return errors.New("ssat has more sectors than the file holds")
+	}
 	sat := make([]SecID, count*int(r.Header.SSATSectorCount))
 	position := 0
 	for sector := r.Header.SSATNextSector; sector >= 0; sector = r.SAT[sector] {
